@@ -93,9 +93,20 @@ def _check(chunk):
     return n, n_err, bad
 
 
+# well-formed expressions wrapped in characters that Python's str methods treat as white space but Nix does not
+EXOTIC_WS = ["\u00a0", "\u0085", "\u2028", "\u2029", "\u2003", "\u3000", "\x1c", "\x1f", "\x0b", "\x0c", "\ufeff", "\u200b"]
+
+
+def exotic_values():
+    for ws in EXOTIC_WS:
+        for core in ("2", '"x"', "[ 1 2 ]", "{ k = 1; }", "a.b"):
+            for shape in (ws + core, core + ws, ws + core + ws, " " + ws + core + "\n", core + " " + ws):
+                yield dict(text=shape, template="exotic-whitespace", kind=f"U+{ord(ws):04X}")
+
+
 def run(tier, seed):
     t0 = time.time()
-    progs = list(G.faults(tier))
+    progs = list(G.faults(tier)) + list(exotic_values())
     chunks = [progs[i::64] for i in range(64)]
     with mp.get_context("fork").Pool(16) as pool:
         res = pool.map(_check, [c for c in chunks if c], chunksize=1)
